@@ -217,7 +217,7 @@ CHECKS = {
         "level_text": "every mcache operation sequence up to the depth bound for three (gossip,history) settings; every node history up to the depth bound over forwards, local publishes, heartbeats, "
                       "IHAVE / IWANT / IDONTWANT with repetition beyond every cap, score levels on both sides of the gossip threshold and time advances across the promise follow-up time; "
                       "window arithmetic in heartbeats, per-heartbeat counter reset, IWANT service rules, IDONTWANT emission/TTL and the if-and-only-if of promise penalties are judged from the wire log and snapshots",
-        "level_note": "IHAVE completeness is only required where peer selection is exhaustive (<= Dlazy eligible peers); IDONTWANT TTL and flood-protection counters are read from the router state",
+        "level_note": "parameter sets: HistoryLength 3 / HistoryGossip 2 and the default length 5 with a gossip window of 1 (`window-hg1`); a full validation queue is driven with the queue full for the whole scenario (`promises-queue-full`), a promised message that WAITS in the queue past the follow-up time is not driven (DESIGN.md section 9); IHAVE completeness is only required where peer selection is exhaustive (<= Dlazy eligible peers); IDONTWANT TTL and flood-protection counters are read from the router state",
         "assumptions": COMMON_ASSUME,
         "design_ref": "DESIGN.md §5 C17",
     },
@@ -253,7 +253,7 @@ CHECKS = {
         "level_text": "threads: 2-3 concurrent validator calls for one author over seqnos {0,1,2,2,MAX}, all interleavings (preemption bound 2|3, then unbounded with state caching); "
                       "node: every arrival order up to the depth bound of messages with seqnos {1,2,2',3,MAX,0}, absent / 3-byte / 9-byte encodings, several forwarders, 1-2 workers, a gated validator behind it, "
                       "and replays after the seen window expired; nonce monotonicity, accepted => committed, and no penalty for ignored replays are judged",
-        "level_note": "the metadata store is an in-memory map supplied by the harness. A free-running pass under the race detector (harness/racepass.go) adds alarms for unsynchronised accesses in this component; it samples schedules and decides nothing by being silent.",
+        "level_note": "the metadata store is an in-memory map supplied by the harness; store faults are enumerated for Get only (the k-th Get of an execution fails, every k, under every schedule: two scenario families), Put never fails. A free-running pass under the race detector (harness/racepass.go) adds alarms for unsynchronised accesses in this component; it samples schedules and decides nothing by being silent.",
         "assumptions": COMMON_ASSUME,
         "design_ref": "DESIGN.md §5 C20",
     },
